@@ -133,15 +133,28 @@ fn open(log: &mut Log, tag: &str, cls: &str, recs: &[FRec], cut: i64, fai_crlf: 
     let data = if cut < 0 { lay.file.clone() } else { lay.file[..(cut as usize).min(lay.file.len())].to_vec() };
     let sh = Shared(Rc::new(RefCell::new(SchedReader::new(data, vec![]))));
     let mut obj = None;
-    let via_index = recs.len() % 2 == 0;
-    log.call("open", json!({"via_index": if via_index {1} else {0}}), || {
-        let rd = if via_index {
-            let index = fasta::Index::new(lay.fai.as_bytes()).unwrap();
-            fasta::IndexedReader::with_index(sh.clone(), index)
-        } else {
+    // constructors: new (parses the .fai), with_index, with_index on a clone of a used Index,
+    // with_index on a serde_json round trip of the Index
+    let via = (recs.len() + recs[0].seq.len() + recs[0].w) % 4;
+    log.oblige(["reader_new", "reader_with_index", "reader_with_cloned_index", "reader_with_serde_index"][via]);
+    log.call("open", json!({"via_index": via}), || {
+        let rd = if via == 0 {
             fasta::IndexedReader::new(sh.clone(), lay.fai.as_bytes()).unwrap()
+        } else {
+            let index = fasta::Index::new(lay.fai.as_bytes()).unwrap();
+            let index = match via {
+                1 => index,
+                2 => {
+                    let _used = index.sequences();
+                    let mut c = fasta::Index::default();
+                    c.clone_from(&index);
+                    c.clone()
+                }
+                _ => serde_json::from_str(&serde_json::to_string(&index).unwrap()).unwrap(),
+            };
+            fasta::IndexedReader::with_index(sh.clone(), index)
         };
-        let seqs: Vec<Value> = rd.index.sequences().iter()
+        let seqs: Vec<Value> = rd.index.sequences().iter().map(|q| q.clone())
             .map(|q| json!({"name": bytes(q.name.as_bytes()), "len": q.len})).collect();
         obj = Some(rd);
         json!({"seqs": seqs})
@@ -197,7 +210,7 @@ fn ev_read(log: &mut Log, o: &mut Obj, sched: &[usize], junk: bool) -> Value {
 fn ev_read_iter(log: &mut Log, o: &mut Obj, sched: &[usize], take: i64, limit: usize) -> Value {
     set_sched(o, sched);
     o.sh.0.borrow_mut().log.clear();
-    log.call("read_iter", json!({"take": take, "sched": sched.len()}), || {
+    log.call("read_iter", json!({"take": take, "sched": sched.len(), "adapt": 0, "k": 0}), || {
         let sh = o.sh.clone();
         match o.rd.read_iter() {
             Err(e) => json!({"ok": 0, "err": err_kind(&e), "items": [], "ierr": 0, "ierrkind": "none", "after": 0,
@@ -237,6 +250,74 @@ fn ev_read_iter(log: &mut Log, o: &mut Obj, sched: &[usize], take: i64, limit: u
                 json!({"ok": 1, "err": "none", "items": bytes(&items), "ierr": ierr, "ierrkind": ierrkind,
                        "after": after, "ended": ended, "capped": capped,
                        "hint": if hint0 < (1usize << 30) { hint0 as i64 } else { -1 }, "io": io_log(&sh)})
+            }
+        }
+    })
+}
+
+/// read_iter consumed through iterator adapters: adapt = 1: nth(k) first (skips k items), then the rest;
+/// adapt = 2: step_by(k). hint_mid = lower size_hint right after the first item came through nth(k).
+fn ev_read_iter_adapt(log: &mut Log, o: &mut Obj, sched: &[usize], adapt: usize, k: usize, limit: usize) -> Value {
+    set_sched(o, sched);
+    o.sh.0.borrow_mut().log.clear();
+    log.call("read_iter", json!({"take": -1, "sched": sched.len(), "adapt": adapt, "k": k}), || {
+        let sh = o.sh.clone();
+        match o.rd.read_iter() {
+            Err(e) => json!({"ok": 0, "err": err_kind(&e), "items": [], "ierr": 0, "ierrkind": "none", "after": 0,
+                             "ended": 0, "capped": 0, "hint": -1, "hint_mid": -1, "io": io_log(&sh)}),
+            Ok(mut it) => {
+                let hint0 = it.size_hint().0;
+                let mut items: Vec<u8> = vec![];
+                let (mut ierr, mut ended, mut capped) = (0, 0, 0);
+                let mut ierrkind = "none";
+                let mut hint_mid: i64 = -1;
+                let mut push = |x: Option<std::io::Result<u8>>, items: &mut Vec<u8>| -> bool {
+                    match x {
+                        None => {
+                            ended = 1;
+                            false
+                        }
+                        Some(Ok(b)) => {
+                            items.push(b);
+                            true
+                        }
+                        Some(Err(e)) => {
+                            ierr = 1;
+                            ierrkind = err_kind(&e);
+                            false
+                        }
+                    }
+                };
+                if adapt == 1 {
+                    if push(it.nth(k), &mut items) {
+                        hint_mid = it.size_hint().0 as i64;
+                        loop {
+                            if items.len() > limit {
+                                capped = 1;
+                                break;
+                            }
+                            if !push(it.next(), &mut items) {
+                                break;
+                            }
+                        }
+                    }
+                } else {
+                    let mut st = it.by_ref().step_by(k.max(1));
+                    loop {
+                        if items.len() > limit {
+                            capped = 1;
+                            break;
+                        }
+                        if !push(st.next(), &mut items) {
+                            break;
+                        }
+                    }
+                }
+                drop(it);
+                json!({"ok": 1, "err": "none", "items": bytes(&items), "ierr": ierr, "ierrkind": ierrkind,
+                       "after": 0, "ended": ended, "capped": capped,
+                       "hint": if hint0 < (1usize << 30) { hint0 as i64 } else { -1 }, "hint_mid": hint_mid,
+                       "io": io_log(&sh)})
             }
         }
     })
@@ -291,7 +372,7 @@ fn fev_read<R: Read + Seek>(log: &mut Log, rd: &mut fasta::IndexedReader<R>, who
     });
 }
 fn fev_read_iter<R: Read + Seek>(log: &mut Log, rd: &mut fasta::IndexedReader<R>, who: usize, limit: usize) {
-    log.call("read_iter", json!({"who": who, "take": -1, "sched": 0}), || match rd.read_iter() {
+    log.call("read_iter", json!({"who": who, "take": -1, "sched": 0, "adapt": 0, "k": 0}), || match rd.read_iter() {
         Err(e) => json!({"ok": 0, "err": err_kind(&e), "items": [], "ierr": 0, "ierrkind": "none", "after": 0,
                          "ended": 0, "capped": 0, "hint": -1, "io": []}),
         Ok(mut it) => {
@@ -717,6 +798,7 @@ pub fn drive(log: &mut Log) {
             log.oblige("read_without_fetch");
         }
         let nq = if big { 6 } else { 10 };
+        let mut done: Vec<(usize, u64, u64)> = vec![];
         for q in 0..nq {
             let k = if q == 0 { target } else { rng.below(nrec as u64) as usize };
             let r = &recs[k];
@@ -896,7 +978,30 @@ pub fn drive(log: &mut Log) {
                 note(log, &rr);
                 log.oblige("adjacent_windows_line_aligned_seam");
             }
+            // the iterator consumed through adapters (complete files only)
+            if cut < 0 && q % 3 == 2 && start <= stop && stop <= len as u64 {
+                ev_fetch(log, &mut o, &r.name, start, stop);
+                let span = (stop - start) as usize;
+                let kk = rng.below(span as u64 + 2) as usize;
+                let rr = if rng.coin() {
+                    log.oblige("read_iter_through_nth");
+                    ev_read_iter_adapt(log, &mut o, &[], 1, kk, span + 16)
+                } else {
+                    log.oblige("read_iter_through_step_by");
+                    ev_read_iter_adapt(log, &mut o, &[7, 100], 2, 1 + kk % 9, span + 16)
+                };
+                note(log, &rr);
+            }
+            done.push((k, start, stop));
         }
+        // the same fetches once more in the opposite order: every answer must be the same as before
+        // (each is judged by the definition, which has no history argument)
+        for &(k, start, stop) in done.iter().rev().take(6) {
+            ev_fetch_rid(log, &mut o, k, start, stop);
+            let rr = ev_read(log, &mut o, &[], true);
+            note(log, &rr);
+        }
+        log.oblige("fetch_set_in_two_orders");
     }
 
     // ---------------- C: lines longer than the BufReader capacity (8192)
